@@ -2,7 +2,7 @@
 //! compile-time dispatch, no_simd, no_unroll) the same smoke transcript of every algorithm must
 //! match the reference models: a feature only selects an implementation, never a result.
 
-use super::{c01, hashdiff, tf, Ctx};
+use super::{blockapi, c01, hashdiff, tf, xback, Ctx};
 use crate::api::{self, Fam, HashId};
 use crate::prng::Rng;
 
@@ -21,7 +21,9 @@ pub fn run(cx: &mut Ctx) {
         hashes.push(HashId { fam: Fam::Skein, bits: 512, out: n });
     }
     for i in 0..cx.budget {
-        match i % 4 {
+        match i % 6 {
+            4 => blockapi::smoke15(cx, &mut rng, &format!("conformance/{}/block-api", cfg)),
+            5 => xback::smoke_kernel(cx, rng.u64(), &format!("conformance/{}/vector-kernel", cfg)),
             0 => {
                 let ty = api::CIPHERS[rng.below(7) as usize];
                 let len = rng.below(700) as usize;
@@ -56,6 +58,8 @@ pub fn replay(cx: &mut Ctx, desc: &str) {
     let d = crate::log::Desc::parse(desc);
     match d.str("algo") {
         "chacha" => c01::replay(cx, desc),
+        "blockapi" => blockapi::replay(cx, desc),
+        "kernel" => xback::smoke_kernel(cx, d.u64("seed"), "replay"),
         "hash" => hashdiff::replay(cx, desc),
         _ => {
             let c = tf::Case { nb: d.u64("nb") as usize, seed: d.u64("seed"), kind: d.u64("kind") as u8, use_new: d.u64("new") == 1 };
